@@ -97,7 +97,10 @@ pub fn compare_snippet(acc: &mut ShardResult, name: &str, code: &str, cfgs: &[Co
     }
     let (base_cfg, base) = &progs[0];
     let funcs: Vec<cairo_lang_sierra::program::Function> =
-        base.program.funcs.iter().filter(|f| f.id.to_string().starts_with("test::")).cloned().collect();
+        // Compiler-generated functions (loop bodies, closures: `f[123-456]`) are not part of the
+        // program's interface: their parameters are whatever the configuration decided to
+        // capture, so only the user's own functions are compared.
+        base.program.funcs.iter().filter(|f| f.id.to_string().starts_with("test::") && !f.id.to_string().contains('[')).cloned().collect();
     for func in funcs {
         let fname = func.id.to_string();
         let mut rng = Rng::derive(seed, &[5, fnv_str(name), fnv_str(&fname)]);
@@ -177,8 +180,16 @@ pub fn c05_worker(ctx: &mut Ctx) {
     }
     let seed = ctx.seed;
     let inputs_per_fn = ctx.tier.pick(6, 30);
-    // ---- W3 snippets.
-    let cases = snippet_cases();
+    // ---- W3 snippets and W1: generated programs (every function, not only main, is compared).
+    let mut cases = snippet_cases();
+    let n_gen: u64 = ctx.tier.pick(150, 2500);
+    for i in 0..n_gen {
+        let mut rng = Rng::derive(seed, &[1, i]);
+        if let Ok((program, _)) = guarded(|| crate::pgen::generate(&mut rng)) {
+            cases.push((format!("generated::#{i}"), crate::pgen::render_program(&program)));
+        }
+    }
+    ctx.count("generated_programs", n_gen);
     let results: Vec<ShardResult> = cases
         .par_iter()
         .map(|(name, code)| {
